@@ -766,6 +766,7 @@ fn gen_history(r: &mut Rng, pool: &Pool, msgs: &[Vec<u8>], n: usize, refusals: b
     let mut world: std::collections::BTreeMap<(usize, u16), usize> = std::collections::BTreeMap::new(); // (type index, id) -> variant
     let mut tick: i32 = match r.below(4) { 0 => 0, 1 => 1, 2 => r.below(100000) as i32, _ => r.below(50) as i32 };
     let mut first = true;
+    let cap = *r.pick(&[3usize, 6, 10, 16, 30]);
     for _ in 0..n {
         // change the world
         for _ in 0..r.below(4) {
@@ -779,6 +780,7 @@ fn gen_history(r: &mut Rng, pool: &Pool, msgs: &[Vec<u8>], n: usize, refusals: b
             world.remove(&k);
         }
         if r.chance(1, 40) { world.clear(); }
+        while world.len() > cap { let k = *world.keys().nth(r.below(world.len() as u64) as usize).unwrap(); world.remove(&k); }
         let mut objs: Vec<(SnapObj, u16)> = world.iter().map(|(&(ti, id), &vi)| (pool.types[ti].1[vi], id)).collect();
         // the order of the iterator does not matter
         if r.chance(1, 2) { objs.reverse(); }
@@ -1014,7 +1016,7 @@ fn main() {
     for v in 0..=8u8 { for base in [&base5, &base6] { let mut f = base.to_vec(); f[7] = v; do_rd(&mut c, &f, "ver"); } }
     // single-byte mutations of the header (the map_size field is kept small: Vec<u8> with count = map_size
     // reserves that many bytes before reading)
-    for _ in 0..(if th { 20000 } else { 2500 }) {
+    for _ in 0..(if th { 20000 } else { 1200 }) {
         let base = if r.chance(1, 2) { &base5 } else { &base6 };
         let mut f = base.to_vec();
         for _ in 0..1 + r.below(3) {
@@ -1039,7 +1041,8 @@ fn main() {
         do_rd(&mut c, &h, "flags");
         // every flag byte, followed by enough bytes for any continuation
         for flags in 0..=255u8 {
-            for tail in [&[][..], &[0, 0, 0, 9][..], &[2, 0x15, 0x37, 0, 0, 0, 0x81][..], &[0x1d, 0, 0, 0][..]] {
+            let tails: &[&[u8]] = if th { &[&[], &[0, 0, 0, 9], &[2, 0x15, 0x37, 0, 0, 0, 0x81], &[0x1d, 0, 0, 0]] } else { &[&[], &[2, 0x15, 0x37, 0, 0, 0, 0x81]] };
+            for &tail in tails {
                 let mut f = h.clone(); f.push(flags); f.extend_from_slice(tail);
                 do_rd(&mut c, &f, "flags");
                 // after a first absolute tick (so that deltas have a base)
@@ -1085,7 +1088,7 @@ fn main() {
         }
     }
     // random chunk streams behind a valid header
-    for _ in 0..(if th { 20000 } else { 2000 }) {
+    for _ in 0..(if th { 20000 } else { 800 }) {
         let ver = 3 + r.below(4) as u8;
         let mut f = hdr_only(ver);
         for _ in 0..r.below(8) {
@@ -1135,7 +1138,7 @@ fn main() {
         do_hl(&mut c, &plain_hdr(), &[HOp::Snap(10, a.clone()), HOp::Snap(10 + gap, a.clone()), HOp::Snap(11 + gap, vec![]), HOp::Snap(12 + gap, a)]);
     }
     // world histories; the long ones cross more than one key-frame interval
-    for i in 0..(if th { 400 } else { 40 }) {
+    for i in 0..(if th { 300 } else { 16 }) {
         let n = match i % 4 { 0 => 300, 1 => 40, 2 => 8, _ => 120 };
         let mut h = if r.chance(1, 2) { plain_hdr() } else { gen_hdr(&mut r) };
         h.length = h.length.max(0);
